@@ -12,7 +12,7 @@ DEV_T = dict(DEV, tiers=("thorough",))
 THO = ("thorough",)
 ASAN_ENV = {"ASAN_OPTIONS": "detect_leaks=0:halt_on_error=1:abort_on_error=1:allocator_may_return_null=1:max_allocation_size_mb=4096"}
 ASAN_C09 = {"name": "asan", "profile": "asan", "primary": False, "tiers": THO, "args": ["--set", "noaslimit=1", "--scale", "0.2"],
-            "env": ASAN_ENV, "timeout": 3000, "min_scale": 0.0}
+            "env": ASAN_ENV, "timeout": 3000, "min_scale": 0.0, "selftest": ("selftest-heap", "AddressSanitizer")}
 MIRI_C09 = {"name": "miri", "kind": "miri", "primary": False, "tiers": THO, "args": ["--set", "inproc=1", "--set", "groups=8"],
             "miriflags": "-Zmiri-tree-borrows -Zmiri-disable-isolation -Zmiri-ignore-leaks", "timeout": 2400,
             "shards": [["--set", "gmod=0", "--set", "stride=12"], ["--set", "gmod=1", "--set", "stride=12"],
@@ -26,7 +26,7 @@ FUZZ_C08 = {"name": "libfuzzer:c08_diff", "kind": "fuzz", "target": "c08_diff", 
 MIRI_TINY = {"name": "miri", "kind": "miri", "primary": False, "tiers": THO, "args": ["--set", "tiny=1", "--set", "smallpools=1"],
              "miriflags": "-Zmiri-tree-borrows -Zmiri-disable-isolation -Zmiri-ignore-leaks", "timeout": 2400}
 TSAN_C14 = {"name": "tsan", "kind": "tsan", "primary": False, "tiers": THO, "args": ["--set", "only=concurrent", "--scale", "0.2"], "timeout": 3000}
-TSAN_C18 = {"name": "tsan", "kind": "tsan", "primary": False, "tiers": THO, "args": ["--scale", "0.03"], "timeout": 3000}
+TSAN_C18 = {"name": "tsan", "kind": "tsan", "primary": False, "tiers": THO, "args": ["--scale", "0.2"], "timeout": 3000}
 REL_LONG = dict(REL, timeout=7200)
 
 PROPS = {}
